@@ -9,9 +9,11 @@ import (
 	"context"
 	"reflect"
 
+	kerrors "k8s.io/apimachinery/pkg/api/errors"
 	metav1 "k8s.io/apimachinery/pkg/apis/meta/v1"
 	"k8s.io/apimachinery/pkg/apis/meta/v1/unstructured"
 	"k8s.io/apimachinery/pkg/runtime"
+	"k8s.io/apimachinery/pkg/runtime/schema"
 	"k8s.io/apimachinery/pkg/types"
 	"sigs.k8s.io/controller-runtime/pkg/client"
 	"sigs.k8s.io/controller-runtime/pkg/reconcile"
@@ -89,7 +91,7 @@ func zzClaimReconciler(c client.Client, ssa bool) *Reconciler {
 // claim.
 //
 //gosym:harness
-//gosym:cover fault-hit stale-read other-claims-xr bound deleted-claim concurrent-write
+//gosym:cover fault-hit stale-read other-claims-xr bound deleted-claim concurrent-write read-timeout
 func HarnessC06Bind() {
 	s := kube.New()
 	cm := claim.New(claim.WithGroupVersionKind(zzClaimGVK))
@@ -168,6 +170,12 @@ func HarnessC06Bind() {
 
 	s.FaultAt = zz.Choose("fault.at", zz.Bound(10, 12)) - 1
 	s.FaultKind = 1 + zz.Choose("fault.kind", 3)
+	// a read that fails may fail as a timeout (the server did not answer in
+	// time) instead of an internal error
+	if s.FaultAt >= 0 && s.FaultKind == kube.FaultErrNoEffect && xrState == 3 && zz.Bool("fault.readTimesOut") {
+		zz.Cover("read-timeout")
+		s.ReadFaultErr = kerrors.NewServerTimeout(schema.GroupResource{Group: "example.org", Resource: "xrs"}, "get", 1)
+	}
 	if s.FaultAt < 0 && !stale {
 		// instead of a fault: another actor writes the claim immediately before
 		// the reconcile's j-th API call (what the reconciler holds is stale
